@@ -38,12 +38,20 @@ impl Model {
 }
 
 fn run_one(path: &str, reqs: &[String]) -> Vec<String> {
-    let mut child = Command::new(path)
-        .stdin(Stdio::piped())
-        .stdout(Stdio::piped())
-        .stderr(Stdio::inherit())
-        .spawn()
-        .unwrap_or_else(|e| panic!("cannot start model driver {}: {}", path, e));
+    // the driver binary is briefly absent while `lake build comrak_model` relinks it: retry for a while
+    let mut tries = 0;
+    let mut child = loop {
+        match Command::new(path).stdin(Stdio::piped()).stdout(Stdio::piped()).stderr(Stdio::inherit()).spawn() {
+            Ok(c) => break c,
+            Err(e) => {
+                tries += 1;
+                if tries > 240 {
+                    panic!("cannot start model driver {}: {}", path, e);
+                }
+                std::thread::sleep(std::time::Duration::from_millis(500));
+            }
+        }
+    };
     let mut stdin = child.stdin.take().unwrap();
     let stdout = child.stdout.take().unwrap();
     let mut res = Vec::with_capacity(reqs.len());
